@@ -2,6 +2,7 @@
 
 pub mod c01;
 pub mod c02;
+pub mod c06;
 pub mod c08;
 pub mod c09;
 pub mod c10;
@@ -61,6 +62,7 @@ pub fn all() -> Vec<Box<dyn Check>> {
     v.push(Box::new(c01::C01 { family: "c01_net_noisy_prelude", skew: true, noisy: true, quick_runs: 1000, thorough_runs: 40000 }));
     v.push(Box::new(c02::C02 { family: "c02_closed_loop_fault_free", faults: false, quick_runs: 3000, thorough_runs: 100_000 }));
     v.push(Box::new(c02::C02 { family: "c02_closed_loop_faults_then_quiet", faults: true, quick_runs: 1000, thorough_runs: 50_000 }));
+    v.push(Box::new(c06::C06));
     v.push(Box::new(c08::C08Driver));
     v.push(Box::new(c09::C09));
     v.push(Box::new(c10::C10));
@@ -126,6 +128,9 @@ pub fn extras(property: &str) -> EvidenceExtras {
         "C02" => {
             e.rule = "each run = one closed loop (statime master or scripted one-step master <-> statime slave with the real Kalman servo acting on a simulated oscillator) at one point of the parameter box (offset +-10 s, drift +-150 ppm, delay 1-400 us, jitter 0-20 us, sync/delay interval 2^-3..2^1 s, timestamp quantum 0/1/8 ns); non-trivial = the port became slave and the bound was evaluated after the settle time; distinct = distinct (parameter class, state-transition sequence) fingerprint".into();
             e.assumptions.push("bound B = max(1 us, 1.5 J + 2 q); settle time 60 s + 150 I + 250 I^2/s calibrated on the unchanged tree with a margin >= 2x and frozen".into());
+        }
+        "C06" => {
+            e.rule = "each run = one ordinary clock (normal, clockClass<128 or slave-only) and 1-3 (one run in 12: nine) scripted masters whose Announce arrivals over 16 intervals are drawn per interval from {present, absent, duplicated with the same sequenceId, stale sequenceId, two delivered out of order}, sequence ids straddling 65535->0, stepsRemoved 254/255/300, one master bearing the instance's own clock identity; BMCA phase from the tape; after every BMCA run the observed parent is checked against an arrival-time model (necessary, sufficient, expiry); non-trivial = the port was slave at some BMCA run; distinct = arrival-pattern fingerprint".into();
         }
         "C08" => {
             e.rule = "each run = one generated history over the host-call alphabet (timers armed or not, BMCA, Announces from better/worse/own/unacceptable masters, Sync/Follow_Up/Delay_Resp/Pdelay traffic, TX timestamps prompt/late/lost, run-time slave-only and quality changes) on an instance with 1-3 ports in random master-only/slave-only/E2E/P2P configuration, or one generated network; role invariants are evaluated after every host call; non-trivial = at least one port state transition; distinct = distinct state-transition sequence fingerprint".into();
